@@ -1,0 +1,34 @@
+//go:build verif
+
+package vfs
+
+// Interface contracts for govc (see /verif/DESIGN.md). Compiled only with -tags verif.
+//
+// File-system operations act on the outside world; with respect to the Go heap they
+// write nothing (results are unconstrained). Trusted: implementations (OSFS, FaultFS)
+// are not verified against these contracts.
+
+//@ func (FS).WriteFile
+//@   trusted
+//@   modifies nothing
+//@ func (FS).Rename
+//@   trusted
+//@   modifies nothing
+//@ func (FS).Remove
+//@   trusted
+//@   modifies nothing
+//@ func (FS).RemoveAll
+//@   trusted
+//@   modifies nothing
+//@ func (FS).MkdirAll
+//@   trusted
+//@   modifies nothing
+//@ func (FS).Truncate
+//@   trusted
+//@   modifies nothing
+//@ func (FS).ReadFile
+//@   trusted
+//@   modifies nothing
+//@ func (FS).Stat
+//@   trusted
+//@   modifies nothing
